@@ -171,8 +171,14 @@ def run(ctx):
     # every body field is rendered as tag=value
     for fq in ("Codec.encode", "Codec._addTag"):
         f = repo.func(fq)
+        # the body list: in the encoder the list that receives the MsgSeqNum field, in _addTag its first parameter
+        if fq == "Codec._addTag":
+            body_name = f.args.args[1].arg
+        else:
+            body_name = next((unparse(c.func.value) for c in walk_no_nested(f) if isinstance(c, ast.Call) and isinstance(c.func, ast.Attribute) and c.func.attr == "append"
+                              and c.args and "FTag.MsgSeqNum" in unparse(c.args[0])), None)
         for c in walk_no_nested(f):
-            if isinstance(c, ast.Call) and isinstance(c.func, ast.Attribute) and c.func.attr == "append" and unparse(c.func.value) == "body":
+            if isinstance(c, ast.Call) and isinstance(c.func, ast.Attribute) and c.func.attr == "append" and unparse(c.func.value) == body_name:
                 a = c.args[0]
                 fmt = a.left.value if isinstance(a, ast.BinOp) and isinstance(a.op, ast.Mod) and isinstance(a.left, ast.Constant) else None
                 ok = fmt in ("%s=%s", "%s=%i", "%s=%d")
